@@ -32,6 +32,7 @@ pub open spec fn lists_ok_prefix<N, E, Ix: IndexType>(ns: Seq<Node<N, Ix>>, es: 
     &&& forall|e: int| 0 <= e < upto ==> (#[trigger] es[e]).node[k].0.ix() < ns.len() && ls[es[e].node[k].0.ix() as int].contains(e)
 }
 /// one step of link_edges: edge i (endpoint x in direction k) is linked at the head of x's k-list
+#[verifier::spinoff_prover]
 pub proof fn lemma_link_step<N, E, Ix: IndexType>(ns0: Seq<Node<N, Ix>>, es0: Seq<Edge<E, Ix>>, ns1: Seq<Node<N, Ix>>, es1: Seq<Edge<E, Ix>>, k: int, ls: Seq<Seq<int>>, x: int, i: int)
     requires 0 <= k < 2, lists_ok_prefix(ns0, es0, k, ls, i), 0 <= i < es0.len(), es0.len() <= end_ix::<Ix>(), 0 <= x < ns0.len(),
         ns1.len() == ns0.len(), es1.len() == es0.len(),
@@ -72,6 +73,7 @@ where
 {
 //@ item src/graph_impl/mod.rs | impl<N, E, Ty, Ix> Graph<N, E, Ty, Ix> where Ty: EdgeType, Ix: IndexType | fn link_edges | props=C01,C17
     /// Fix up node and edge links after deserialization
+    /*+*/#[verifier::spinoff_prover]/*-*/
     fn link_edges(&mut self) -> (res: Result<(), NodeIndex<Ix>>)
         /*+*/requires old(self).n() <= end_ix::<Ix>(), old(self).m() <= end_ix::<Ix>(),
             forall|a: int| 0 <= a < old(self).n() ==> (#[trigger] old(self).nodes@[a]).next[0].i() == end_ix::<Ix>() && old(self).nodes@[a].next[1].i() == end_ix::<Ix>(),   // as produced by the node deserialiser
